@@ -183,7 +183,12 @@ class World:
                     sc.append(["api", a])
             if out < maxout:
                 busy_s = set(r["target"] for r in m.pending["unsubscribe"].values())
-                busy_r = set(r["target"] for r in m.pending["unregister"].values())
+                # a registration may be unregistered a second time while the first UNREGISTER is
+                # unanswered (it stays active until UNREGISTERED): at most two pending per registration
+                _cnt = {}
+                for r in m.pending["unregister"].values():
+                    _cnt[r["target"]] = _cnt.get(r["target"], 0) + 1
+                busy_r = set(t for t, n_ in _cnt.items() if n_ >= 2)
                 if api_ok("unsub"):
                     for sid in sorted(m.subs):
                         if sid not in busy_s and self.objs.get(m.subs[sid]) is not None:
